@@ -158,18 +158,38 @@ func c32ops(pre topics.PredefinedTopics, clientID string) []c32op {
 	return ops
 }
 
+// c32longID: a client id longer than the 23 octets MQTT-SN recommends (the tools' default ids are up to 29 long)
+const c32longID = "c1-0123456789-0123456789-0123456789"
+
+// c32configFor: every third configuration names its client-specific section (and the client) with the long id
+func c32configFor(cfgIdx int, clientID string) (topics.PredefinedTopics, string) {
+	pre := c32config(cfgIdx)
+	if cfgIdx%3 != 2 {
+		return pre, clientID
+	}
+	if sec, ok := pre["c1"]; ok {
+		delete(pre, "c1")
+		pre[c32longID] = sec
+	}
+	if clientID == "c1" {
+		clientID = c32longID
+	}
+	return pre, clientID
+}
+
 // every operation runs on a fresh session (a refused operation may legitimately end the session)
 func runC32(t *testing.T, cfgIdx int, clientID string) (n int, outcome string, vs []explore.Violation, herr string) {
 	var outs []string
-	for _, op := range c32ops(c32config(cfgIdx), clientID) {
+	pre0, clientID := c32configFor(cfgIdx, clientID)
+	for _, op := range c32ops(pre0, clientID) {
 		op := op
-		pre := c32config(cfgIdx) // a fresh configuration object per run (sessions may write into it)
+		pre, _ := c32configFor(cfgIdx, clientID) // a fresh configuration object per run (sessions may write into it)
 		res, _ := explore.Bubble(t, nil, func(s *vsched.Sched) (string, []explore.Violation) {
 			s.NoChoice = true
 			// the gateway serves every client from one configuration object: a session of the *other* client on the
 			// same object comes first (connect, one predefined publish, disconnect)
 			other := "c1"
-			if clientID == "c1" {
+			if clientID == "c1" || clientID == c32longID {
 				other = "c2"
 			}
 			cfg0 := c16cfg()
@@ -283,7 +303,7 @@ func TestC32(t *testing.T) {
 	rep.Coverage["sessions"] = evals
 	rep.Coverage["exhaustive"] = true
 	rep.Coverage["samples"] = samples
-	rep.Coverage["rule"] = "all 81 shared predefined configurations {c1,*} x id{1,2} -> {absent,p/1,p/2} x client id {c1,c2}; each operation on a fresh real client + real gateway session + broker model (every other configuration connecting with a last will), after a session of the other client id on the same configuration object: PublishPredefined with raw ids 1..3 and with ids derived by name through GetTopicID (as bisquitt-pub does) at QoS 0/1, Publish on 2-byte names (ASCII, with '/', 2-byte UTF-8 characters), SubscribePredefined 1..3 and Subscribe on the 2-byte names each followed by broker messages (QoS 0/1) on the subscribed name; reference: client-specific entry first, then \"*\". The broker must see exactly the name the client meant (nothing for an id that denotes nothing) and the handler must get the broker's name. distinct_nontrivial = distinct per-configuration logs"
+	rep.Coverage["rule"] = "all 81 shared predefined configurations {c1,*} x id{1,2} -> {absent,p/1,p/2} x client id {c1,c2}; each operation on a fresh real client + real gateway session + broker model (every other configuration connecting with a last will, every third one with a 35-octet client id), after a session of the other client id on the same configuration object: PublishPredefined with raw ids 1..3 and with ids derived by name through GetTopicID (as bisquitt-pub does) at QoS 0/1, Publish on 2-byte names (ASCII, with '/', 2-byte UTF-8 characters), SubscribePredefined 1..3 and Subscribe on the 2-byte names each followed by broker messages (QoS 0/1) on the subscribed name; reference: client-specific entry first, then \"*\". The broker must see exactly the name the client meant (nothing for an id that denotes nothing) and the handler must get the broker's name. distinct_nontrivial = distinct per-configuration logs"
 	rep.Assumptions = []string{"default schedule, lossless link", "client and gateway share one configuration object (as the property states)"}
 	rep.Finish()
 }
